@@ -33,6 +33,8 @@ def rename(x, m):
             k = x[0]
             if k == "var":
                 return ["var", m.get(x[1], x[1])]
+            if k == "pop":
+                return ["pop", m.get(x[1], x[1])]
             if k == "setv":
                 return ["setv", [[m.get(n, n), rename(v, m)] for n, v in x[1]]]
             if k == "setx":
@@ -62,8 +64,10 @@ def names_of(prog):
         if isinstance(x, list):
             if x and isinstance(x[0], str):
                 k = x[0]
-                if k == "var":
+                if k in ("var", "pop"):
                     out.append(x[1])
+                    if k == "pop":
+                        return
                 elif k in ("setv", "let"):
                     out.extend(n for n, _ in x[1])
                 elif k in ("setx", "for", "lfor"):
